@@ -119,6 +119,9 @@ static int sample_left;
 static char sample_buf[4096];
 static int sample_len;
 static int dead_fd = -1, reg_file_fd = -1;
+static int g_nosig, g_quiet_case;
+static uint64_t last_trace, case_inj0;
+static long last_iters;
 
 /* non-triviality flags per case */
 static int nt_c01, nt_c02, nt_c03, nt_c04, nt_c05, nt_c06, nt_c07;
@@ -1250,7 +1253,7 @@ static void cb_enter(int kind, int o)
 	cb_total++;
 	cb_this_iter++;
 	S.cb[kind]++;
-	th(kind, o, iter);
+	th(kind, o, 0);
 	if (cb_total >= budget && !winding) {
 		winding = 1;
 		trigger_reap();
@@ -1601,13 +1604,13 @@ static void iteration_end_checks(void)
 	/* C07 f/g: wake-ups that dispatch nothing must not repeat */
 	if (!eintr_this_iter) {
 		if (last_wait_ret_events > 0 && cb_this_iter == 0 && !stim_applied_iter) {
-			if (++spin_events > 16)
+			if (++spin_events == 17)
 				mon_viol("C07", "spin-events", g_method, "%d consecutive iterations in which the kernel wait returned events but no callback ran", spin_events);
 		} else {
 			spin_events = 0;
 		}
 		if (last_wait_ret_events == 0 && last_wait_timeout_zero && cb_this_iter == 0) {
-			if (++spin_zero > 16)
+			if (++spin_zero == 17)
 				mon_viol("C07", "spin-zero-timeout", g_method, "%d consecutive zero-time-out polls that returned nothing and dispatched nothing", spin_zero);
 		} else {
 			spin_zero = 0;
@@ -1667,7 +1670,7 @@ void hk_wait_enter(struct vt_wait *w)
 				rk_nonempty = 1;
 				if (ob->unserved_since[b] < 0)
 					ob->unserved_since[b] = iter;
-				else if (iter - ob->unserved_since[b] >= limit + (long)vt_fault_fired() + eintr_natural)
+				else if (iter - ob->unserved_since[b] >= limit + (long)(vt_fault_fired() - case_inj0) + eintr_natural)
 					mon_viol("C02", "starved", bname[b],
 						 "fd #%d (descriptor %d) band %s has been wanted and ready (revents 0x%x) since iteration %ld and was not served by iteration %ld",
 						 i, ob->osfd, bname[b], snapE[ob->osfd], ob->unserved_since[b], iter);
@@ -1685,7 +1688,7 @@ void hk_wait_enter(struct vt_wait *w)
 		if (ts_ns(&ob->expires) <= V) {
 			if (ob->due_seen_iter < 0)
 				ob->due_seen_iter = iter;
-			else if (iter - ob->due_seen_iter >= 2 + (long)vt_fault_fired() + eintr_natural)
+			else if (iter - ob->due_seen_iter >= 2 + (long)(vt_fault_fired() - case_inj0) + eintr_natural)
 				mon_viol("C05", "timer-not-prompt", "timer", "timer #%d was due at wait %ld and has still not fired at wait %ld", i, ob->due_seen_iter, iter);
 		}
 	}
@@ -1898,7 +1901,9 @@ static unsigned swarm_mask(void)
 static void run_case(long id)
 {
 	int i, hv[3], c, s, ninit;
-	uint64_t prop_sig;
+	uint64_t prop_sig, inj0 = vt_fault_fired();
+
+	case_inj0 = inj0;
 
 	mon_case_id = id;
 	mon_viol_case = 0;
@@ -1919,6 +1924,8 @@ static void run_case(long id)
 	self_obj = -1;
 	sample_len = 0;
 	enabled_mask = swarm_mask();
+	if (g_nosig)
+		enabled_mask &= ~((1u << A_SIG_REG) | (1u << A_SIG_UNREG) | (1u << A_SIG_RAISE));
 	budget = g_budget_base / 2 + rng_n(&R, g_budget_base * 2);
 	pop_mode = rng_pct(&R, !strcmp(g_focus, "C05") ? 60 : !strcmp(g_focus, "C04") ? 15 : 3);
 	kicks_left = rng_n(&R, 40);
@@ -1996,10 +2003,20 @@ static void run_case(long id)
 	{
 		int nf = count_open_fds();
 		S.hyg_checks++;
-		if (base_fds < 0)
+		if (base_fds < 0) {
 			base_fds = nf;
-		else if (nf != base_fds)
-			mon_viol("C18", "fd-leak", g_method, "%d descriptors open after iv_deinit, %d before the first iv_init", nf, base_fds);
+		} else if (nf > base_fds) {
+			/* a process-wide one-time acquisition (e.g. the shared kick descriptor kept after a failed
+			 * registration) is not growth; descriptors that keep accumulating over the cycles are */
+			static int growth_events;
+			if (++growth_events >= 3)
+				mon_viol("C18", "fd-leak", g_method, "%d descriptors open after iv_deinit, %d after the previous cycles (grew %d times)", nf, base_fds, growth_events);
+			else
+				mon_printf("NOTE descriptor count after iv_deinit went from %d to %d (one-time, case %ld)\n", base_fds, nf, mon_case_id);
+			base_fds = nf;
+		} else if (nf < base_fds) {
+			base_fds = nf;
+		}
 		if (__sanitizer_get_current_allocated_bytes) {
 			size_t h = __sanitizer_get_current_allocated_bytes();
 			if (heap_warm < 3) {
@@ -2027,8 +2044,12 @@ static void run_case(long id)
 	if (nt_c06) { S.nt[6]++; sig_add(6, prop_sig); }
 	if (nt_c07) { S.nt[7]++; sig_add(7, prop_sig); }
 	sig_add(0, prop_sig);
-	mon_printf("CASE id=%ld trace=%016llx nt=0x%x cb=%ld iters=%ld viol=%d\n", id, (unsigned long long)trace_hash,
-		   (nt_c01 << 1) | (nt_c02 << 2) | (nt_c03 << 3) | (nt_c04 << 4) | (nt_c05 << 5) | (nt_c06 << 6) | (nt_c07 << 7), cb_total, iter, mon_viol_case);
+	last_trace = trace_hash;
+	last_iters = iter;
+	if (!g_quiet_case)
+		mon_printf("CASE id=%ld trace=%016llx nt=0x%x cb=%ld iters=%ld inj=%llu viol=%d\n", id, (unsigned long long)trace_hash,
+			   (nt_c01 << 1) | (nt_c02 << 2) | (nt_c03 << 3) | (nt_c04 << 4) | (nt_c05 << 5) | (nt_c06 << 6) | (nt_c07 << 7), cb_total, iter,
+			   (unsigned long long)(vt_fault_fired() - inj0), mon_viol_case);
 	if (sample_left > 0 && sample_len > 0) {
 		sample_left--;
 		mon_printf("SAMPLE case=%ld method=%s %s\n", id, g_method, sample_buf);
@@ -2082,8 +2103,45 @@ int main(int argc, char **argv)
 	iv_deinit();
 	base_fds = count_open_fds();
 
-	for (i = first; i < first + n; i++)
-		run_case(i);
+	g_nosig = arg_flag(argc, argv, "--nosig");
+	if (arg_flag(argc, argv, "--c15-eintr")) {
+		/* C15: for every k, the k-th kernel wait of the case fails with EINTR; the callback trace must not change */
+		long maxk = arg_ll(argc, argv, "--maxk", 80);
+		unsigned long long evals = 0, fired = 0, mism = 0;
+		g_nosig = 1;		/* the order of several interests for one signal depends on their addresses */
+		for (i = first; i < first + n; i++) {
+			uint64_t base;
+			long nw, k2;
+			char plan[64];
+			vt_fault_clear();
+			run_case(i);
+			base = last_trace;
+			nw = last_iters;
+			g_quiet_case = 1;
+			for (k2 = 1; k2 <= nw && k2 <= maxk; k2++) {
+				uint64_t f0;
+				vt_fault_clear();
+				snprintf(plan, sizeof(plan), "wait:EINTR@%ld", k2);
+				vt_fault_plan(plan);
+				f0 = vt_fault_fired();
+				run_case(i);
+				evals++;
+				if (vt_fault_fired() > f0)
+					fired++;
+				/* (an interrupted wait lets deferred tasks run before the descriptors are served, so the traces of these
+				 * order-dependent random programs legitimately differ; the schedule-independent comparison is done by sum.c -
+				 * here the monitors of C01-C07 stay armed while every wait of the case is interrupted in turn) */
+				if (last_trace != base)
+					mism++;
+			}
+			g_quiet_case = 0;
+			vt_fault_clear();
+		}
+		mon_printf("STAT c15_eintr_runs=%llu c15_eintr_fired=%llu c15_eintr_trace_differs=%llu\n", evals, fired, mism);
+	} else {
+		for (i = first; i < first + n; i++)
+			run_case(i);
+	}
 
 	mon_printf("STAT method=%s cases=%llu waits=%llu cb_fd=%llu cb_timer=%llu cb_task=%llu cb_event=%llu cb_raw=%llu cb_sig=%llu "
 		   "fd_entries_checked=%llu wait_entries_checked=%llu timer_entries_checked=%llu task_entries_checked=%llu "
